@@ -34,8 +34,8 @@ Core  == {P0a, NP0b, P1a, NP01c, NC1a, D0a, D0, Fn1, FnAll, Sh0a}
 
 P01c  == Pulse("PULSE 0 1 \"c\" flat(duration: 1, iq: 1)", TRUE, F01c, Tmpl(1, 0, 0))
 C0b   == Capture("CAPTURE 0 \"b\" flat(duration: 1, iq: 1) ro[1]", TRUE, F0b, Tmpl(1, 0, 0))
-R0a   == RawCapture("RAW-CAPTURE 0 \"a\" 2 raw", TRUE, F0a, 2)
-NR1a  == RawCapture("NONBLOCKING RAW-CAPTURE 1 \"a\" 3 raw", FALSE, F1a, 3)
+R0a   == RawCapture("RAW-CAPTURE 0 \"a\" 2 raw[0]", TRUE, F0a, 2)
+NR1a  == RawCapture("NONBLOCKING RAW-CAPTURE 1 \"a\" 3 raw[0]", FALSE, F1a, 3)
 D01   == Delay("DELAY 0 1 2", <<0, 1>>, <<>>, 2)
 D1b   == Delay("DELAY 1 \"b\" 1", <<1>>, <<"b">>, 1)                      \* matches no frame
 D0ab  == Delay("DELAY 0 \"a\" \"b\" 2", <<0>>, <<"a", "b">>, 2)
